@@ -50,4 +50,399 @@ theorem scan_unit (js : Bool) (n : Nat) (h : n < 65536) (tail : List Char) :
   | none => simp [consItem]
   | some p => simp [consItem]
 
+theorem scan_simple (js : Bool) (e ch : Char) (he : e ≠ 'u') (hs : simpleEscape? e = some ch) (tail : List Char) :
+    scanBody js ('\\' :: e :: tail) = consItem (Item.raw ch) (scanBody js tail) := by
+  rw [scanBody.eq_def]
+  simp only [hs, he]
+  simp
+  cases scanBody js tail with
+  | none => simp [consItem]
+  | some p => simp [consItem]
+
+theorem scan_raw (js : Bool) (c : Char) (h1 : c ≠ '"') (h2 : c ≠ '\\') (h3 : ¬ c.toNat < 0x20)
+    (h4 : js = true → c ≠ '\u2028' ∧ c ≠ '\u2029') (tail : List Char) :
+    scanBody js (c :: tail) = consItem (Item.raw c) (scanBody js tail) := by
+  have h5 : (js && (decide (c = '\u2028') || decide (c = '\u2029'))) = false := by
+    cases js with
+    | false => rfl
+    | true => simp [h4 rfl]
+  rw [scanBody.eq_def]
+  simp only [h1, h2, h3, h5]
+  simp
+  cases scanBody js tail with
+  | none => simp [consItem]
+  | some p => simp [consItem]
+
+theorem goodEsc_json : GoodEsc false jsonEscChar := by
+  intro c tail
+  unfold jsonEscChar
+  split
+  · next h => subst h; exact ⟨_, scan_simple _ _ _ (by decide) (by decide) _, itemFor_raw _⟩
+  split
+  · next h => subst h; exact ⟨_, scan_simple _ _ _ (by decide) (by decide) _, itemFor_raw _⟩
+  split
+  · next h => subst h; exact ⟨_, scan_simple _ 'n' _ (by decide) (by decide) _, itemFor_raw _⟩
+  split
+  · next h => subst h; exact ⟨_, scan_simple _ 'r' _ (by decide) (by decide) _, itemFor_raw _⟩
+  split
+  · next h => subst h; exact ⟨_, scan_simple _ 't' _ (by decide) (by decide) _, itemFor_raw _⟩
+  split
+  · next h => subst h; exact ⟨_, scan_simple _ 'b' _ (by decide) (by decide) _, itemFor_raw _⟩
+  split
+  · next h => subst h; exact ⟨_, scan_simple _ 'f' _ (by decide) (by decide) _, itemFor_raw _⟩
+  split
+  · next h => exact ⟨_, scan_unit _ _ (by omega) _, itemFor_unit (by omega)⟩
+  · next h1 h2 _ _ _ _ _ h3 =>
+    exact ⟨_, scan_raw false c h1 h2 h3 (by simp) tail, itemFor_raw _⟩
+
+theorem goodEsc_js (js : Bool) : GoodEsc js jsEscChar := by
+  intro c tail
+  unfold jsEscChar
+  by_cases h1 : c = '"'
+  · rw [if_pos h1]; subst h1; exact ⟨_, scan_simple _ _ _ (by decide) (by decide) _, itemFor_raw _⟩
+  rw [if_neg h1]
+  by_cases h2 : c = '\\'
+  · rw [if_pos h2]; subst h2; exact ⟨_, scan_simple _ _ _ (by decide) (by decide) _, itemFor_raw _⟩
+  rw [if_neg h2]
+  by_cases h : c = '\n'
+  · rw [if_pos h]; subst h; exact ⟨_, scan_simple _ 'n' _ (by decide) (by decide) _, itemFor_raw _⟩
+  rw [if_neg h]
+  by_cases h : c = '\r'
+  · rw [if_pos h]; subst h; exact ⟨_, scan_simple _ 'r' _ (by decide) (by decide) _, itemFor_raw _⟩
+  rw [if_neg h]
+  by_cases h : c = '\t'
+  · rw [if_pos h]; subst h; exact ⟨_, scan_simple _ 't' _ (by decide) (by decide) _, itemFor_raw _⟩
+  rw [if_neg h]
+  by_cases h : c = '\x08'
+  · rw [if_pos h]; subst h; exact ⟨_, scan_simple _ 'b' _ (by decide) (by decide) _, itemFor_raw _⟩
+  rw [if_neg h]
+  by_cases h : c = '\x0c'
+  · rw [if_pos h]; subst h; exact ⟨_, scan_simple _ 'f' _ (by decide) (by decide) _, itemFor_raw _⟩
+  rw [if_neg h]
+  by_cases h : c = '<'
+  · rw [if_pos h]; subst h
+    exact ⟨_, scan_unit js 0x3C (by decide) tail, itemFor_unit (c := '<') (by decide)⟩
+  rw [if_neg h]
+  by_cases h8 : c = '\u2028'
+  · rw [if_pos h8]; subst h8
+    exact ⟨_, scan_unit js 0x2028 (by decide) tail, itemFor_unit (c := '\u2028') (by decide)⟩
+  rw [if_neg h8]
+  by_cases h9 : c = '\u2029'
+  · rw [if_pos h9]; subst h9
+    exact ⟨_, scan_unit js 0x2029 (by decide) tail, itemFor_unit (c := '\u2029') (by decide)⟩
+  rw [if_neg h9]
+  by_cases h3 : c.toNat < 0x20
+  · rw [if_pos h3]; exact ⟨_, scan_unit _ _ (by omega) _, itemFor_unit (by omega)⟩
+  rw [if_neg h3]
+  exact ⟨_, scan_raw js c h1 h2 h3 (fun _ => ⟨h8, h9⟩) tail, itemFor_raw _⟩
+
+/-! ### One string -/
+
+theorem scan_escBody {js : Bool} {esc : Char → List Char} (hg : GoodEsc js esc) (s rest : List Char) :
+    ∃ is, scanBody js (escBody esc s ++ '"' :: rest) = some (is, rest) ∧ combine is = some s := by
+  induction s with
+  | nil => exact ⟨[], by rw [scanBody.eq_def]; simp [escBody], rfl⟩
+  | cons c cs ih =>
+    obtain ⟨is, h1, h2⟩ := ih
+    obtain ⟨it, h3, h4⟩ := hg c (escBody esc cs ++ '"' :: rest)
+    refine ⟨it :: is, ?_, ?_⟩
+    · simp only [escBody, List.append_assoc]
+      rw [h3, h1]; rfl
+    · rw [h4 is, h2]; rfl
+
+theorem parseStringTail_esc {js : Bool} {esc : Char → List Char} (hg : GoodEsc js esc) (s rest : List Char) :
+    parseStringTail js (escBody esc s ++ '"' :: rest) = some (s, rest) := by
+  obtain ⟨is, h1, h2⟩ := scan_escBody hg s rest
+  simp [parseStringTail, h1, h2]
+
+
+/-! ### Arrays of strings -/
+
+theorem skipWs_of_not_ws {c : Char} (h : isWs c = false) (r : List Char) : skipWs (c :: r) = c :: r := by
+  simp [skipWs, h]
+
+@[simp] theorem skipWs_quote (r : List Char) : skipWs ('"' :: r) = '"' :: r := skipWs_of_not_ws (by decide) r
+@[simp] theorem skipWs_comma (r : List Char) : skipWs (',' :: r) = ',' :: r := skipWs_of_not_ws (by decide) r
+@[simp] theorem skipWs_colon (r : List Char) : skipWs (':' :: r) = ':' :: r := skipWs_of_not_ws (by decide) r
+@[simp] theorem skipWs_semi (r : List Char) : skipWs (';' :: r) = ';' :: r := skipWs_of_not_ws (by decide) r
+@[simp] theorem skipWs_eq (r : List Char) : skipWs ('=' :: r) = '=' :: r := skipWs_of_not_ws (by decide) r
+@[simp] theorem skipWs_lbrack (r : List Char) : skipWs ('[' :: r) = '[' :: r := skipWs_of_not_ws (by decide) r
+@[simp] theorem skipWs_rbrack (r : List Char) : skipWs (']' :: r) = ']' :: r := skipWs_of_not_ws (by decide) r
+@[simp] theorem skipWs_lbrace (r : List Char) : skipWs ('{' :: r) = '{' :: r := skipWs_of_not_ws (by decide) r
+@[simp] theorem skipWs_rbrace (r : List Char) : skipWs ('}' :: r) = '}' :: r := skipWs_of_not_ws (by decide) r
+@[simp] theorem skipWs_n (r : List Char) : skipWs ('n' :: r) = 'n' :: r := skipWs_of_not_ws (by decide) r
+@[simp] theorem skipWs_space (r : List Char) : skipWs (' ' :: r) = skipWs r := by simp [skipWs, isWs]
+@[simp] theorem skipWs_nil : skipWs [] = [] := rfl
+
+/-- a quoting function whose output is read back as the string, by `parseValue` with any fuel ≥ 1 -/
+def GoodQuote (js : Bool) (q : List Char → List Char) : Prop :=
+  ∀ f s rest, parseValue js (f + 1) (q s ++ rest) = some (JVal.str s, rest)
+
+theorem goodQuote_of_goodEsc {js : Bool} {esc : Char → List Char} (hg : GoodEsc js esc) :
+    GoodQuote js (fun s => '"' :: (escBody esc s ++ ['"'])) := by
+  intro f s rest
+  have := parseStringTail_esc hg s rest
+  simp only [List.cons_append, List.append_assoc, List.nil_append]
+  rw [parseValue]
+  simp [this]
+
+/-- `,q(s1),q(s2)…` -/
+def commaSep (q : List Char → List Char) : List (List Char) → List Char
+  | [] => []
+  | s :: ss => ',' :: (q s ++ commaSep q ss)
+
+theorem parseArrRest_strs {js : Bool} {q : List Char → List Char} (hq : GoodQuote js q)
+    (ss : List (List Char)) : ∀ (f : Nat) (acc : List JVal) (rest : List Char), ss.length < f →
+    parseArrRest js f acc (commaSep q ss ++ ']' :: rest)
+      = some (JVal.arr (acc.reverse ++ ss.map JVal.str), rest) := by
+  induction ss with
+  | nil =>
+    intro f acc rest hf
+    obtain ⟨f', rfl⟩ : ∃ f', f = f' + 1 := ⟨f - 1, by simp at hf; omega⟩
+    rw [parseArrRest]
+    simp [commaSep]
+  | cons s ss ih =>
+    intro f acc rest hf
+    simp only [List.length_cons] at hf
+    obtain ⟨f', rfl⟩ : ∃ f', f = f' + 2 := ⟨f - 2, by omega⟩
+    rw [parseArrRest]
+    simp only [commaSep, List.cons_append, List.append_assoc, skipWs_comma]
+    simp only [hq f' s]
+    rw [ih (f' + 1) (JVal.str s :: acc) rest (by omega)]
+    simp
+
+/-- `q(s0),q(s1)…` -/
+def strsBody (q : List Char → List Char) : List (List Char) → List Char
+  | [] => []
+  | s :: ss => q s ++ commaSep q ss
+
+theorem parseValue_strs {js : Bool} {q : List Char → List Char} (hq : GoodQuote js q)
+    (hq0 : ∀ s, ∃ t, q s = '"' :: t)
+    (ss : List (List Char)) (f : Nat) (rest : List Char) (hf : ss.length < f) :
+    parseValue js (f + 1)
+      ('[' :: (strsBody q ss ++ ']' :: rest))
+      = some (JVal.arr (ss.map JVal.str), rest) := by
+  cases ss with
+  | nil =>
+    rw [parseValue]
+    simp [strsBody]
+  | cons s ss' =>
+    simp only [List.length_cons] at hf
+    simp only [strsBody]
+    obtain ⟨f', rfl⟩ : ∃ f', f = f' + 1 := ⟨f - 1, by omega⟩
+    obtain ⟨t, ht⟩ := hq0 s
+    have h1 := hq f' s (commaSep q ss' ++ ']' :: rest)
+    have h2 := parseArrRest_strs hq ss' (f' + 1) [JVal.str s] rest (by omega)
+    rw [parseValue]
+    simp only [List.append_assoc, skipWs_lbrack]
+    rw [ht] at h1 ⊢
+    simp only [List.cons_append, skipWs_quote] at h1 ⊢
+    simp only [h1, h2]
+    simp
+
+theorem allStrs_map (ss : List (List Char)) : allStrs (ss.map JVal.str) = some ss := by
+  induction ss with
+  | nil => rfl
+  | cons s ss ih => simp [allStrs, asStr, ih]
+
+/-! ### The formatter of the build helper -/
+
+theorem goodQuote_json : GoodQuote false jsonQuote := goodQuote_of_goodEsc goodEsc_json
+theorem goodQuote_js (js : Bool) : GoodQuote js jsQuote := goodQuote_of_goodEsc (goodEsc_js js)
+
+theorem formatterRest_eq (ss : List (List Char)) : formatterRest ss = commaSep jsonQuote ss := by
+  induction ss with
+  | nil => rfl
+  | cons s ss ih => simp [formatterRest, commaSep, ih]
+
+theorem length_commaSep_ge (q : List Char → List Char) (ss : List (List Char)) :
+    ss.length ≤ (commaSep q ss).length := by
+  induction ss with
+  | nil => simp [commaSep]
+  | cons s ss ih => simp [commaSep]; omega
+
+theorem formatter_eq (strs : List (List Char)) :
+    formatter strs = '[' :: (strsBody jsonQuote strs ++ [']']) := by
+  cases strs with
+  | nil => rfl
+  | cons s ss => simp [formatter, formatterRest_eq, strsBody]
+
+theorem length_formatter (strs : List (List Char)) : strs.length < (formatter strs).length := by
+  cases strs with
+  | nil => simp [formatter]
+  | cons s ss =>
+    have := length_commaSep_ge jsonQuote ss
+    simp [formatter, formatterRest_eq]; omega
+
+theorem jsonDecode_formatter (strs : List (List Char)) : jsonDecodeStrings (formatter strs) = some strs := by
+  unfold jsonDecodeStrings
+  have h := parseValue_strs goodQuote_json (fun s => ⟨_, rfl⟩) strs (formatter strs).length [] (length_formatter strs)
+  rw [← formatter_eq] at h
+  rw [h]
+  simp [asStrList, allStrs_map]
+
+/-! ### Objects -/
+
+theorem parseMember_quote (js : Bool) (g : Nat) (k X : List Char) :
+    parseMember js (g + 1) (jsQuote k ++ ':' :: X)
+      = match parseValue js g X with
+        | some (v, r3) => some ((k, v), r3)
+        | none => none := by
+  rw [parseMember]
+  have h := parseStringTail_esc (goodEsc_js js) k (':' :: X)
+  simp only [jsQuote, List.cons_append, List.append_assoc, List.nil_append, skipWs_quote]
+  simp only [h, skipWs_colon]
+  cases parseValue js g X with
+  | none => rfl
+  | some p => rfl
+
+/-- a value text `V` read back as `v` by `parseValue` with any fuel above `f` -/
+def Reads (js : Bool) (f : Nat) (V : List Char) (v : JVal) : Prop :=
+  ∀ g r, f < g → parseValue js g (V ++ r) = some (v, r)
+
+theorem parseMember_reads {js : Bool} {f : Nat} {V : List Char} {v : JVal} (h : Reads js f V v)
+    (g : Nat) (hg : f + 1 < g) (k r : List Char) :
+    parseMember js g (jsQuote k ++ ':' :: (V ++ r)) = some ((k, v), r) := by
+  obtain ⟨g', rfl⟩ : ∃ g', g = g' + 1 := ⟨g - 1, by omega⟩
+  rw [parseMember_quote, h g' r (by omega)]
+
+theorem parseValue_obj3 {js : Bool} {f : Nat} (k1 k2 k3 V1 V2 V3 : List Char) (v1 v2 v3 : JVal)
+    (h1 : Reads js f V1 v1) (h2 : Reads js f V2 v2) (h3 : Reads js f V3 v3) (g : Nat) (hg : f + 4 < g)
+    (rest : List Char) :
+    parseValue js g ('{' :: (jsQuote k1 ++ ':' :: (V1 ++ ',' :: (jsQuote k2 ++ ':' :: (V2 ++ ',' ::
+      (jsQuote k3 ++ ':' :: (V3 ++ '}' :: rest)))))))
+      = some (JVal.obj [(k1, v1), (k2, v2), (k3, v3)], rest) := by
+  obtain ⟨f', rfl⟩ : ∃ f', g = f' + 5 := ⟨g - 5, by omega⟩
+  rw [parseValue]
+  simp only [skipWs_lbrace]
+  have hq : ∀ Y, skipWs (jsQuote k1 ++ Y) = '"' :: (escBody jsEscChar k1 ++ ['"'] ++ Y) := by
+    intro Y; simp [jsQuote]
+  rw [hq]
+  simp only [parseMember_reads h1 (f' + 4) (by omega)]
+  rw [parseObjRest]
+  simp only [skipWs_comma, parseMember_reads h2 (f' + 3) (by omega)]
+  rw [parseObjRest]
+  simp only [skipWs_comma, parseMember_reads h3 (f' + 2) (by omega)]
+  rw [parseObjRest]
+  simp
+
+/-! ### One translation unit -/
+
+/-- characters `push_js_str` leaves alone; locale names (`Locale::as_str`: a language identifier) and
+    unit ids (`TranslationUnitId::to_str`: a namespace name, a Rust identifier) consist of such
+    characters only, which is why `to_array` may push them unescaped -/
+def plainChar (c : Char) : Bool :=
+  c ≠ '"' && c ≠ '\\' && c ≠ '<' && c ≠ '\u2028' && c ≠ '\u2029' && decide (0x20 ≤ c.toNat)
+
+def NameOk (n : List Char) : Prop := ∀ c ∈ n, plainChar c = true
+
+def UnitNamesOk (u : TUnit) : Prop := NameOk u.locale ∧ ∀ i, u.id = some i → NameOk i
+
+theorem jsEscChar_plain {c : Char} (h : plainChar c = true) : jsEscChar c = [c] := by
+  simp only [plainChar, Bool.and_eq_true, decide_eq_true_eq, ne_eq] at h
+  obtain ⟨⟨⟨⟨⟨h1, h2⟩, h3⟩, h4⟩, h5⟩, h6⟩ := h
+  have hn : c ≠ '\n' := by intro e; subst e; revert h6; decide
+  have hr : c ≠ '\r' := by intro e; subst e; revert h6; decide
+  have ht : c ≠ '\t' := by intro e; subst e; revert h6; decide
+  have hb : c ≠ '\x08' := by intro e; subst e; revert h6; decide
+  have hf : c ≠ '\x0c' := by intro e; subst e; revert h6; decide
+  have h7 : ¬ c.toNat < 0x20 := by omega
+  simp [jsEscChar, h1, h2, h3, h4, h5, hn, hr, ht, hb, hf, h7]
+
+theorem escBody_plain {n : List Char} (h : NameOk n) : escBody jsEscChar n = n := by
+  induction n with
+  | nil => rfl
+  | cons c cs ih =>
+    have hc := jsEscChar_plain (h c (by simp))
+    simp [escBody, hc, ih (fun c' hc' => h c' (by simp [hc']))]
+
+theorem rawQuote_eq {n : List Char} (h : NameOk n) (r : List Char) : n ++ '"' :: r = escBody jsEscChar n ++ '"' :: r := by
+  rw [escBody_plain h]
+
+theorem valuesLoop_false_eq (vs : List (List Char)) : valuesLoop false vs = commaSep jsQuote vs := by
+  induction vs with
+  | nil => rfl
+  | cons v vs ih => simp [valuesLoop, commaSep, ih]
+
+theorem valuesLoop_true_eq (vs : List (List Char)) : valuesLoop true vs = strsBody jsQuote vs := by
+  cases vs with
+  | nil => rfl
+  | cons v vs => simp [valuesLoop, strsBody, valuesLoop_false_eq]
+
+def idText : Option (List Char) → List Char
+  | some i => jsQuote i
+  | none => ['n', 'u', 'l', 'l']
+
+def idJson : Option (List Char) → JVal
+  | some i => JVal.str i
+  | none => JVal.null
+
+def unitJson (u : TUnit) : JVal :=
+  JVal.obj [(kLocale, JVal.str u.locale), (kId, idJson u.id), (kValues, JVal.arr (u.values.map JVal.str))]
+
+theorem lit1 : litLocale = '{' :: (jsQuote kLocale ++ [':', '"']) := by decide
+theorem lit2 : litId = '"' :: ',' :: (jsQuote kId ++ [':', '"']) := by decide
+theorem lit3 : litValues = '"' :: ',' :: (jsQuote kValues ++ [':', '[']) := by decide
+theorem lit4 : litIdNull
+    = '"' :: ',' :: (jsQuote kId ++ (':' :: 'n' :: 'u' :: 'l' :: 'l' :: ',' :: (jsQuote kValues ++ [':', '[']))) := by
+  decide
+theorem lit5 : litClose = [']', '}'] := rfl
+
+theorem unitBody_append {u : TUnit} (hu : UnitNamesOk u) (rest : List Char) :
+    unitBody u ++ rest = '{' :: (jsQuote kLocale ++ ':' :: (jsQuote u.locale ++ ',' :: (jsQuote kId ++ ':' ::
+      (idText u.id ++ ',' :: (jsQuote kValues ++ ':' ::
+        (('[' :: (strsBody jsQuote u.values ++ [']'])) ++ '}' :: rest)))))) := by
+  obtain ⟨l, i, vs⟩ := u
+  obtain ⟨hl, hi⟩ := hu
+  simp only at hl hi
+  cases i with
+  | none =>
+    simp only [unitBody, lit1, lit4, lit5, valuesLoop_true_eq, idText]
+    simp only [jsQuote, List.cons_append, List.append_assoc, List.nil_append, escBody_plain hl]
+  | some i =>
+    have hi' := hi i rfl
+    simp only [unitBody, lit1, lit2, lit3, lit5, valuesLoop_true_eq, idText]
+    simp only [jsQuote, List.cons_append, List.append_assoc, List.nil_append, escBody_plain hl, escBody_plain hi']
+
+theorem reads_quote (js : Bool) (f : Nat) (s : List Char) : Reads js f (jsQuote s) (JVal.str s) := by
+  intro g r hg
+  obtain ⟨g', rfl⟩ : ∃ g', g = g' + 1 := ⟨g - 1, by omega⟩
+  exact goodQuote_js js g' s r
+
+theorem reads_null (js : Bool) (f : Nat) : Reads js f ['n', 'u', 'l', 'l'] JVal.null := by
+  intro g r hg
+  obtain ⟨g', rfl⟩ : ∃ g', g = g' + 1 := ⟨g - 1, by omega⟩
+  rw [parseValue]
+  simp
+
+theorem reads_idText (js : Bool) (f : Nat) (i : Option (List Char)) : Reads js f (idText i) (idJson i) := by
+  cases i with
+  | none => exact reads_null js f
+  | some i => exact reads_quote js f i
+
+theorem reads_strs (js : Bool) (ss : List (List Char)) :
+    Reads js (ss.length + 1) ('[' :: (strsBody jsQuote ss ++ [']'])) (JVal.arr (ss.map JVal.str)) := by
+  intro g r hg
+  obtain ⟨g', rfl⟩ : ∃ g', g = g' + 1 := ⟨g - 1, by omega⟩
+  have := parseValue_strs (goodQuote_js js) (fun s => ⟨_, rfl⟩) ss g' r (by omega)
+  simpa using this
+
+theorem reads_mono {js : Bool} {f f' : Nat} {V : List Char} {v : JVal} (h : Reads js f V v) (hf : f ≤ f') :
+    Reads js f' V v := fun g r hg => h g r (by omega)
+
+theorem parseValue_unit (js : Bool) {u : TUnit} (hu : UnitNamesOk u) (g : Nat) (hg : u.values.length + 5 < g)
+    (rest : List Char) : parseValue js g (unitBody u ++ rest) = some (unitJson u, rest) := by
+  rw [unitBody_append hu]
+  exact parseValue_obj3 (f := u.values.length + 1) kLocale kId kValues _ _ _ _ _ _
+    (reads_quote js _ u.locale) (reads_idText js _ u.id) (reads_strs js u.values) g (by omega) rest
+
+theorem asUnit_unitJson (u : TUnit) : asUnit (unitJson u) = some u := by
+  obtain ⟨l, i, vs⟩ := u
+  have h1 : (kLocale = kId) = False := eq_false (by decide)
+  have h2 : (kLocale = kValues) = False := eq_false (by decide)
+  have h3 : (kId = kValues) = False := eq_false (by decide)
+  cases i with
+  | none => simp [asUnit, unitJson, lookupKey, idJson, h1, h2, h3, asStrList, allStrs_map]
+  | some i => simp [asUnit, unitJson, lookupKey, idJson, h1, h2, h3, asStrList, allStrs_map]
+
 end I18nVerif.Escape
